@@ -155,20 +155,33 @@ impl AckFrame {
 
     /// Iterate through the sequence numbers of the packets acknowledged by the iterative ACK frame,
     /// starting from the largest and going down.
+    ///
+    /// A range that would reach below packet number 0 is invalid (see [`AckFrame::is_valid`]):
+    /// the iteration ends in front of it instead of underflowing.
     pub fn iter(&self) -> impl Iterator<Item = RangeInclusive<u64>> + '_ {
         let right = self.largest.into_u64();
-        let left = right - self.first_range.into_u64();
-        Some(left..=right).into_iter().chain(
+        let first = right
+            .checked_sub(self.first_range.into_u64())
+            .map(|left| left..=right);
+        let mut smallest = first.as_ref().map(|range| *range.start());
+        first.into_iter().chain(
             self.ranges
                 .iter()
                 .map(|(gap, range)| (gap.into_u64(), range.into_u64()))
-                .scan(left, |largest, (gap, range)| {
-                    let right = *largest - gap - 2;
-                    let left = right - range;
-                    *largest = left;
+                .map_while(move |(gap, range)| {
+                    let right = smallest?.checked_sub(gap)?.checked_sub(2)?;
+                    let left = right.checked_sub(range)?;
+                    smallest = Some(left);
                     Some(left..=right)
                 }),
         )
+    }
+
+    /// Whether every range of the frame stays at or above packet number 0. If not, the frame
+    /// must be answered with a connection error of type FRAME_ENCODING_ERROR
+    /// (see [section-19.3.1](https://www.rfc-editor.org/rfc/rfc9000.html#section-19.3.1)).
+    pub fn is_valid(&self) -> bool {
+        self.iter().count() == self.ranges.len() + 1
     }
 }
 
